@@ -26,16 +26,21 @@ FileOps ==
     \cup [op : {"SetType"}, rec : 0..6, to : {"INTE", "REAL", "DOUB", "CHAR", "C0XX", "MESS", "XXXX", "LOGI"}]
     \cup [op : {"SetMarker"}, rec : 0..6, which : {"head", "tail"}, to : {"zero", "plus4", "huge"}]
     \cup [op : {"FlipByte"}, pos : {1, 10, 25, 50, 75, 90, 99}, bit : {0, 3, 7}]
+\* systematic family: every integer of the first records of every keyword the models use, perturbed in every way
+KwNames == {"ACTDIMS", "ACTIONX", "COMPDAT", "COMPSEGS", "DATES", "DENSITY", "DIMENS", "DX", "DY", "DZ", "EQLDIMS", "EQLNUM", "EQLOPTS", "EQUIL", "FAULTDIM", "FAULTS", "FLUXNUM", "GCONPROD", "GEFAC", "GRUPTREE", "MULTFLT", "MULTREGT", "NNC", "PERMX", "PERMY", "PERMZ", "PLMIXPAR", "PLYADS", "PLYMAX", "PLYROCK", "PLYSHLOG", "PLYVISC", "PORO", "PVTG", "PVTNUM", "PVTO", "PVTW", "REGDIMS", "ROCKCOMP", "ROCKTAB", "RSVD", "SATNUM", "SGFN", "SGOF", "SOF3", "START", "SWFN", "SWOF", "TABDIMS", "THPRES", "TOPS", "TRACER", "TRACERS", "UDQ", "UDQDIMS", "VFPPDIMS", "VFPPROD", "WCONINJE", "WCONPROD", "WELLDIMS", "WELOPEN", "WELSEGS", "WELSPECS", "WELTARG", "WSEGDIMS", "WTEST"}
+SweepOps == [op : {"BumpKwInt"}, kw : KwNames, tok : 0..7, how : {"plus1", "minus1", "times10", "zero", "negative", "huge"}]
 VARIABLES kind, script
 vars == <<kind, script>>
-Init == kind \in {"deck", "file"} /\ script = <<>>
-Add == /\ Len(script) < MaxOps
+CONSTANT Sweep
+Init == IF Sweep THEN kind = "sweep" /\ script \in {<<o>> : o \in SweepOps}
+        ELSE kind \in {"deck", "file"} /\ script = <<>>
+Add == /\ ~Sweep /\ Len(script) < MaxOps
        /\ \E o \in (IF kind = "deck" THEN DeckOps ELSE FileOps) : script' = Append(script, o)
        /\ UNCHANGED kind
 Next == Add
 Spec == Init /\ [][Next]_vars
 Thin == 40
-Emit == IF Len(script) >= 1 /\ RandomElement(1..Thin) = 1 THEN PrintT(<<"GEN", ToJson([kind |-> kind, script |-> script])>>) ELSE TRUE
+Emit == IF Len(script) >= 1 /\ (Sweep \/ RandomElement(1..Thin) = 1) THEN PrintT(<<"GEN", ToJson([kind |-> kind, script |-> script])>>) ELSE TRUE
 \* ---- what the library may answer
 Allowed == {"result", "exception"}
 OutcomeOk(o) == o \in Allowed
